@@ -21,6 +21,7 @@ RULE = ("Hypothesis: calendars with VEVENT/VTODO/VJOURNAL/VFREEBUSY and nested V
         "{TZID of present VTIMEZONEs}; neither raises; after adding, every used id known to the provider has exactly one VTIMEZONE "
         "with that TZID, unknown ids are still missing, repeating the call changes neither the component count nor the bytes. "
         "Non-trivial: >= 2 distinct used ids and >= 1 pre-existing VTIMEZONE; distinct by hash.")
+RULE += ' Rounds 7-8: own-zone VTIMEZONEs whose observances carry TZID parameters; class-less components; tuple-valued parameters; default / one-sided / empty / reversed windows of add_missing_timezones.'
 ASSUMPTIONS = ["'known to the provider' is decided by tzp.timezone(id) is not None", "pre-existing VTIMEZONEs have pairwise different TZIDs"]
 REQUIRED_CLASSES = ["pre:unused", "pre:no-tzid", "pre:used", "unknown-id", "multi-valued", "nested-alarm", "path:parsed", "path:api", "calls>=2", "edited-after-first-query"]
 
